@@ -43,50 +43,54 @@ func mkCmap(threads [][]string) *mc.Exec {
 						m.Lock(key)
 						hist = append(hist, me+"+"+op)
 						if writers[key] > 0 || readers[key] > 0 {
-							mc.Fail("mutual exclusion: %s returned from Lock(%q) while the key has %d exclusive holder(s) and %d reader(s) inside their critical sections; history=%v", me, key, writers[key], readers[key], hist)
+							mc.Fail("mutual exclusion: two holders of one key that must exclude each other\n%s returned from Lock(%q) while the key has %d exclusive holder(s) and %d reader(s) inside their critical sections; history=%v", me, key, writers[key], readers[key], hist)
 						}
 						writers[key]++
 					} else {
 						m.RLock(key)
 						hist = append(hist, me+"+"+op)
 						if writers[key] > 0 {
-							mc.Fail("mutual exclusion: %s returned from RLock(%q) while the key has %d exclusive holder(s) inside the critical section; history=%v", me, key, writers[key], hist)
+							mc.Fail("mutual exclusion: two holders of one key that must exclude each other\n%s returned from RLock(%q) while the key has %d exclusive holder(s) inside the critical section; history=%v", me, key, writers[key], hist)
 						}
 						readers[key]++
 					}
 					mc.Yield()
 					hist = append(hist, me+"-"+op)
-					if cmapFocusMutex {
-						// documentation aid (C13_CMAP_FOCUS=mutex): survive the
-						// release-side panic of the known defect so that the search
-						// goes on to a schedule with two simultaneous holders
+					func() {
+						// a release that reaches a mutex the caller does not hold
+						// makes the runtime panic ("Unlock of unlocked RWMutex");
+						// report it as a finding of the scenario's class
 						defer func() {
 							if p := recover(); p != nil {
-								hist = append(hist, fmt.Sprintf("%s:panic(%v)", me, p))
+								if cmapFocusMutex {
+									hist = append(hist, fmt.Sprintf("%s:panic(%v)", me, p))
+									return
+								}
+								mc.Fail("release panicked: it reached a mutex the caller does not hold\n%s releasing %s: %v; history=%v", me, op, p, hist)
 							}
 						}()
-					}
-					switch kind {
-					case 'W':
-						writers[key]--
-						m.Unlock(key)
-					case 'D':
-						writers[key]--
-						m.DeleteUnlock(key)
-					case 'R':
-						readers[key]--
-						m.RUnlock(key)
-					case 'E':
-						readers[key]--
-						m.DeleteRUnlock(key)
-					}
+						switch kind {
+						case 'W':
+							writers[key]--
+							m.Unlock(key)
+						case 'D':
+							writers[key]--
+							m.DeleteUnlock(key)
+						case 'R':
+							readers[key]--
+							m.RUnlock(key)
+						case 'E':
+							readers[key]--
+							m.DeleteRUnlock(key)
+						}
+					}()
 				}
 			})
 		}
 	}
 	check := func(e *mc.End) error {
 		if u := unfinished(e); len(u) > 0 && !cmapFocusMutex {
-			return fmt.Errorf("deadlock: correctly paired callers never returned: %v; history=%v", u, hist)
+			return fmt.Errorf("deadlock: correctly paired callers never returned\nunfinished=%v; history=%v", u, hist)
 		}
 		mc.Outcome(strings.Join(hist, " "))
 		return nil
@@ -162,11 +166,16 @@ func cmapScenarios() []hx.Scenario {
 		}
 		seen[name] = true
 		th := parseScen(name)
-		out = append(out, hx.Scenario{
+		sc := hx.Scenario{
 			Name: "cmap " + name, Class: cmapClass(th), ThoroughOnly: thorough,
 			Opts: mc.Options{Delay: false, MinBound: bound, Bound: bound, MaxSteps: 4000},
 			Mk:   func() *mc.Exec { return mkCmap(th) },
-		})
+		}
+		if len(th) >= 4 {
+			// 4 threads: bound 1 in the quick tier (bound 2 costs ~2*10^5 schedules each)
+			sc.QuickBound, sc.QuickMin = hx.Ptr(1), hx.Ptr(1)
+		}
+		out = append(out, sc)
 	}
 	var alpha2, alpha1 []string
 	for _, k := range []string{"a", "b"} {
@@ -189,11 +198,8 @@ func cmapScenarios() []hx.Scenario {
 	for _, name := range combos(seqs(alpha2, 1), 3, canonKeys, nil) {
 		add(name, false, 2)
 	}
-	// 3 threads, 4 sections in total: 1 key in the quick tier, 2 keys thorough
+	// 3 threads, 4 sections in total, 1 or 2 keys: thorough
 	four := func(th [][]string) bool { return totalOps(th) <= 4 }
-	for _, name := range combos(seqs(alpha1, 2), 3, canonKeys, four) {
-		add(name, false, 2)
-	}
 	for _, name := range combos(seqs(alpha2, 2), 3, canonKeys, four) {
 		add(name, true, 2)
 	}
